@@ -377,11 +377,13 @@ func r20_4(c *Ctx, rule string) {
 	prefixLen := func(v ssa.Value) int64 {
 		if sl, ok := v.(*ssa.Slice); ok {
 			if al, isA := sl.X.(*ssa.Alloc); isA {
-				if arr, isArr := al.Type().(*types.Pointer).Elem().Underlying().(*types.Array); isArr && sl.High == nil && sl.Low == nil {
-					return arr.Len()
+				if arr, isArr := al.Type().(*types.Pointer).Elem().Underlying().(*types.Array); isArr && eng.SliceLow(sl) == nil {
+					if sl.High == nil {
+						return arr.Len()
+					}
 				}
 			}
-			if sl.Low == nil && sl.High != nil {
+			if eng.SliceLow(sl) == nil && sl.High != nil {
 				if k, ok := eng.ConstInt(sl.High); ok {
 					return k
 				}
@@ -467,10 +469,8 @@ func r20_4(c *Ctx, rule string) {
 		ms, isMS := buf.(*ssa.MakeSlice)
 		okLen := false
 		if isMS {
-			if bo, isB := ms.Len.(*ssa.BinOp); isB && bo.Op == token.ADD {
-				if k, isK := eng.ConstInt(bo.Y); isK && k == 4 {
-					okLen = true
-				}
+			if _, isSum := eng.SumWithConst(ms.Len, 4); isSum {
+				okLen = true
 			}
 		}
 		c.R.Check(okLen, rule, c.siteName(call)+"/whole-frame", c.pos(call), "writes one buffer of size+4 bytes", "SendMsg does not write the frame as one buffer of Size()+4 bytes: a concurrent writer or a short write can interleave frames")
